@@ -1,0 +1,27 @@
+//go:build verif
+
+package types
+
+import (
+	"sync/atomic"
+	"time"
+)
+
+// Clock of the verification harness (build tag verif only).
+//
+// NowTS reads the wall clock through verifNow. The harness can move that clock by a whole
+// number of seconds (the sub-second phase of the real clock is kept), so that one process
+// can be observed before and after a day / month / year boundary, or after the clock was
+// stepped back. The offset is 0 unless VerifSetClockOffset was called.
+
+var verifClockOffset int64 // seconds
+
+// VerifSetClockOffset makes NowTS return the real time plus sec seconds.
+func VerifSetClockOffset(sec int64) { atomic.StoreInt64(&verifClockOffset, sec) }
+
+// VerifClockOffset returns the current offset in seconds.
+func VerifClockOffset() int64 { return atomic.LoadInt64(&verifClockOffset) }
+
+func verifNow() time.Time {
+	return time.Now().Add(time.Duration(atomic.LoadInt64(&verifClockOffset)) * time.Second)
+}
